@@ -278,3 +278,300 @@ def mkworkdir():
 
 def rmworkdir(d):
     shutil.rmtree(d, ignore_errors=True)
+
+
+# ====================================================================== threads under the baton (C02)
+class BatonEnv:
+    """Shared state of one controlled multi-thread run."""
+
+    def __init__(self, sched):
+        self.S = sched
+        self.labels = []
+        self.ctx = {}            # logical thread -> 'acquire' | 'release' | None
+        self.holder = None       # descriptor holding the flock (all flock calls go through the proxy)
+        self.occ = 0
+        self.maxocc = 0
+        self.overlaps = []
+        self.open_fds = set()
+
+    def me(self):
+        return int(_threading.current_thread().name[1:])
+
+
+BENV = None
+
+
+class BatonLock:
+    def __init__(self, reentrant):
+        self.re = reentrant
+        self.owner = None
+        self.depth = 0
+        self.oid = None
+
+    def _free(self, me):
+        return self.owner is None or (self.re and self.owner == me)
+
+    def acquire(self, blocking=True, timeout=-1):
+        E = BENV
+        me = E.me()
+        if not blocking:
+            E.S.point('tl.try')
+            ok = self._free(me)
+        elif timeout is not None and timeout >= 0:
+            E.S.point('tl.timed', enabled=lambda: self._free(me), deadline=E.S.vt + timeout)
+            ok = self._free(me)
+        else:
+            E.S.point('tl.acquire', enabled=lambda: self._free(me))
+            ok = self._free(me)
+        if ok:
+            self.owner = me
+            self.depth += 1
+        E.labels.append(f'ta:{me}:{self.oid}:{1 if ok else 0}')
+        return ok
+
+    def release(self):
+        E = BENV
+        me = E.me()
+        E.S.point('tl.release')
+        if self.owner is None:
+            raise RuntimeError('release unlocked lock')
+        if self.re and self.owner != me:
+            raise RuntimeError('cannot release un-acquired lock')
+        self.depth -= 1
+        if self.depth == 0:
+            self.owner = None
+        E.labels.append(('gu:%d' if E.ctx.get(me) == 'acquire' else 'tr:%d') % me)
+
+
+class BatonThreading(types.ModuleType):
+    def __getattr__(self, n):
+        return getattr(_threading, n)
+
+    @staticmethod
+    def Lock():
+        return BatonLock(False)
+
+    @staticmethod
+    def RLock():
+        return BatonLock(True)
+
+
+class BatonOs(types.ModuleType):
+    def __getattr__(self, n):
+        return getattr(_os, n)
+
+    @staticmethod
+    def open(path, mode, *a):
+        E = BENV
+        E.S.point('os.open')
+        fd = _os.open(path, mode, *a)
+        E.open_fds.add(fd)
+        E.labels.append(f'op:{E.me()}:1')
+        return fd
+
+    @staticmethod
+    def close(fd):
+        E = BENV
+        me = E.me()
+        E.S.point('os.close')
+        _os.close(fd)
+        E.open_fds.discard(fd)
+        if E.holder == fd:
+            E.holder = None
+        E.labels.append(('ca:%d' if E.ctx.get(me) == 'acquire' else 'cr:%d') % me)
+
+
+class BatonFcntl(types.ModuleType):
+    def __getattr__(self, n):
+        return getattr(_fcntl, n)
+
+    @staticmethod
+    def flock(fd, op):
+        E = BENV
+        me = E.me()
+        if op == _fcntl.LOCK_UN:
+            E.S.point('flock.unlock')
+            _fcntl.flock(fd, op)
+            if E.holder == fd:
+                E.holder = None
+            E.labels.append(f'ul:{me}')
+            return
+        if op & _fcntl.LOCK_NB:
+            E.S.point('flock.nb')
+        else:
+            E.S.point('flock.block', enabled=lambda: E.holder is None)
+        try:
+            _fcntl.flock(fd, op | _fcntl.LOCK_NB)
+        except OSError:
+            E.labels.append(f'fl:{me}:0')
+            raise
+        E.holder = fd
+        E.labels.append(f'fl:{me}:1')
+
+
+class BatonTime(types.ModuleType):
+    def __getattr__(self, n):
+        return getattr(_time, n)
+
+    @staticmethod
+    def time():
+        return BENV.S.vt
+
+    @staticmethod
+    def sleep(d):
+        E = BENV
+        E.labels.append(f'rt:{E.me()}')
+        E.S.point('sleep', enabled=lambda: False, deadline=E.S.vt + d)
+
+
+def install_baton():
+    import aiuti.filelock as FL
+    for name in ('threading', 'os', 'fcntl', 'time'):
+        if not hasattr(FL, name):
+            raise RuntimeError(f'aiuti.filelock has no module global {name!r} to attach to')
+    FL.threading = BatonThreading('threading')
+    FL.os = BatonOs('os')
+    FL.fcntl = BatonFcntl('fcntl')
+    FL.time = BatonTime('time')
+    _installed[0] = False        # the sequential proxies have to be re-installed before a sequential run
+    return FL
+
+
+def gen_threads(rng):
+    """A multi-thread scenario: objects (reentrancy) and one script per thread.
+    round = (obj, form, nested, force) with form in
+      'b' blocking acquire(), 'n' non-blocking, 't<ticks>' timed, 'with' the with-statement,
+      'ctxb' / 'ctxt<ticks>' acquire_ctx()."""
+    nobj = rng.randint(1, 2)
+    reent = [rng.random() < 0.5 for _ in range(nobj)]
+    nthr = rng.randint(2, 4)
+    scripts = []
+    for k in range(nthr):
+        rounds = []
+        for _ in range(rng.randint(1, 3)):
+            o = rng.randrange(nobj)
+            form = rng.choice(['b', 'b', 'n', 't30', 't200', 'with', 'ctxb', 'ctxt60'])
+            nested = reent[o] and rng.random() < 0.4
+            force = nested and rng.random() < 0.5
+            rounds.append((o, form, nested, force))
+        scripts.append(rounds)
+    return {'reent': reent, 'scripts': scripts}
+
+
+def run_threads(scn, seed, workdir, choices=None, pct=0):
+    """Run the scenario under the baton scheduler. Returns dict(labels, maxocc, hung, errors, trace)."""
+    from .. core.baton import Sched
+    global BENV
+    FL = install_baton()
+    S = Sched(seed, choices=choices, pct_depth=pct)
+    E = BatonEnv(S)
+    BENV = E
+    path = _os.path.join(workdir, 'thr.lock')
+    objs = []
+    for i, r in enumerate(scn['reent']):
+        ob = FL.FileLock(path, reentrant=r)
+        ob._thread_lock.oid = i
+        objs.append(ob)
+
+    def critical(me):
+        S.point('cs.enter')
+        E.occ += 1
+        E.maxocc = max(E.maxocc, E.occ)
+        if E.occ > 1:
+            E.overlaps.append(me)
+        E.labels.append(f'en:{me}')
+        S.point('cs.inside')
+        E.occ -= 1
+        E.labels.append(f'ex:{me}')
+
+    def do_release(me, o, force=False):
+        S.point('release')
+        E.labels.append(f'rb:{me}:{o}:{1 if force else 0}')
+        E.ctx[me] = 'release'
+        try:
+            objs[o].release(force=force)
+        finally:
+            E.ctx[me] = None
+
+    def do_acquire(me, o, **kw):
+        E.ctx[me] = 'acquire'
+        try:
+            return objs[o].acquire(poll_interval=POLL * TICK, **kw)
+        finally:
+            E.ctx[me] = None
+
+    def body(me):
+        def f():
+            for (o, form, nested, force) in scn['scripts'][me]:
+                ob = objs[o]
+                if form == 'with':
+                    E.ctx[me] = 'acquire'
+                    ob.__enter__()
+                    E.ctx[me] = None
+                    critical(me)
+                    S.point('release')
+                    E.labels.append(f'rb:{me}:{o}:0')
+                    E.ctx[me] = 'release'
+                    ob.__exit__(None, None, None)
+                    E.ctx[me] = None
+                    continue
+                if form.startswith('ctx'):
+                    kw = {} if form == 'ctxb' else {'timeout': int(form[4:]) * TICK}
+                    cm = ob.acquire_ctx(poll_interval=POLL * TICK, **kw)
+                    E.ctx[me] = 'acquire'
+                    try:
+                        cm.__enter__()
+                    except TimeoutError:
+                        E.ctx[me] = None
+                        continue
+                    E.ctx[me] = None
+                    critical(me)
+                    S.point('release')
+                    E.labels.append(f'rb:{me}:{o}:0')
+                    E.ctx[me] = 'release'
+                    cm.__exit__(None, None, None)
+                    E.ctx[me] = None
+                    continue
+                if form == 'b':
+                    ok = do_acquire(me, o)
+                elif form == 'n':
+                    ok = do_acquire(me, o, blocking=False)
+                else:
+                    ok = do_acquire(me, o, timeout=int(form[1:]) * TICK)
+                if not ok:
+                    continue
+                if nested:
+                    ok2 = do_acquire(me, o, blocking=False)
+                    critical(me)
+                    if ok2:
+                        if force:
+                            do_release(me, o, force=True)
+                            continue
+                        do_release(me, o)
+                    do_release(me, o)
+                else:
+                    critical(me)
+                    do_release(me, o)
+        return f
+    for k in range(len(scn['scripts'])):
+        S.spawn(f'T{k}', body(k))
+    S.run()
+    res = dict(labels=E.labels, maxocc=E.maxocc, overlaps=E.overlaps, hung=S.hung, errors=S.errors,
+               trace=S.trace, still_locked=[ob.is_locked for ob in objs])
+    for ob in objs:
+        fd = ob._lock_file_fd
+        ob._lock_file_fd = None
+        ob._thread_lock = CoopLock(False)
+    for fd in list(E.open_fds):
+        try:
+            _os.close(fd)
+        except OSError:
+            pass
+    return res
+
+
+def small_model_line(scn, labels):
+    n = len(scn['scripts'])
+    return (f"flocksm reent={','.join('1' if r else '0' for r in scn['reent'])} "
+            f"procT={','.join('0' for _ in range(n))} procO={','.join('0' for _ in scn['reent'])} "
+            f"labels={';'.join(labels)}")
